@@ -135,7 +135,9 @@ func (w *world) apply(op WOp) {
 	case "commit":
 		w.commit(op)
 	case "gc":
+		w.opE = op.E
 		w.gc()
+		w.opE = false
 	case "reload":
 		w.reload(op)
 	case "crash":
@@ -288,7 +290,16 @@ func (w *world) commit(op WOp) {
 	// otherwise the live trie itself could not read the nodes it has just turned into hash references
 	deferred := op.D && w.has("C11") && level == 64
 	if w.guard("Commit", func() {
+		if op.R && w.kv != nil && w.has("C11") {
+			// a read outage while Commit() runs: the only reads it makes are the probes "is this node in storage
+			// already?", whose errors it does not report
+			w.kv.FailAllGets = true
+			w.stats.Inc("fault.read-errors-during-commit")
+		}
 		b, e := w.t.Commit(level)
+		if w.kv != nil {
+			w.kv.FailAllGets = false
+		}
 		if e != nil {
 			err = e
 			return
@@ -302,6 +313,18 @@ func (w *world) commit(op WOp) {
 		w.flushPending()
 		if w.v != nil {
 			return
+		}
+		if op.E && w.kv != nil {
+			// separate fault-injecting configuration: the write of this batch fails once (nothing is applied); the
+			// caller sees the error and writes the same batch again
+			w.kv.FailCommit = map[int]bool{w.kv.St.Batches + 1: true}
+			e1 := b.Commit(op.Sync)
+			w.kv.FailCommit = nil
+			w.stats.Inc("fault.batch-write-error")
+			if e1 == nil {
+				w.fail("c11.fault", "write-error-swallowed", "the write of a commit's batch failed with an injected I/O error and Commit(sync) on the batch reported success")
+				return
+			}
 		}
 		err = b.Commit(op.Sync)
 	}) {
@@ -321,6 +344,9 @@ func (w *world) commit(op WOp) {
 	}
 	w.dirtyRead = false
 	w.clean = true
+	if wroteSomething {
+		w.rolledBack = false
+	}
 	root := append([]byte{}, w.t.Root()...)
 	rec := commitRec{root: root, weight: w.t.Weight(), n: len(w.commits), model: w.modelCopy()}
 	if w.kv != nil {
@@ -461,6 +487,32 @@ func (w *world) gc() {
 		w.gcSinceB++ // more than one pass between a commit and its rollback is outside C13's quantifier (see rollback)
 	}
 	var err error
+	if w.opE && w.kv != nil {
+		// the collector's delete batch fails once: DeleteNodes reports the error (if it had anything to delete) and
+		// the pass is made again
+		w.kv.FailCommit = map[int]bool{w.kv.St.Batches + 1: true}
+		before := w.kv.St.CommitErrs
+		var e1 error
+		if w.guard("DeleteNodes under a write error", func() { e1 = w.t.DeleteNodes() }) {
+			return
+		}
+		w.kv.FailCommit = nil
+		if w.kv.St.CommitErrs > before {
+			w.stats.Inc("fault.gc-batch-write-error")
+			if e1 == nil {
+				w.fail("c11.fault", "gc-write-error-swallowed", "the collector's delete batch failed with an injected I/O error and DeleteNodes reported success")
+				return
+			}
+		} else {
+			// nothing was due for deletion: the pass has been made (no write happened)
+			w.stats.Inc("probe.gc")
+			w.log.Printf("gc")
+			if w.has("C11") && len(w.commits) > 0 {
+				w.checkReopen(w.db.Get, &w.commits[len(w.commits)-1], "after-gc")
+			}
+			return
+		}
+	}
 	if w.guard("DeleteNodes", func() { err = w.t.DeleteNodes() }) {
 		return
 	}
@@ -472,6 +524,13 @@ func (w *world) gc() {
 	w.log.Printf("gc")
 	if w.has("C11") && len(w.commits) > 0 {
 		w.checkReopen(w.db.Get, &w.commits[len(w.commits)-1], "after-gc")
+	}
+	if w.has("C13") && w.rolledBack && w.clean && len(w.commits) > 0 {
+		// the state a rollback returned to stays resolvable through the collector passes that follow it
+		if rec := &w.commits[len(w.commits)-1]; len(rec.blocks) > 0 || rec.weight == 0 {
+			w.checkReopenAs(rec, "c13.resolvable", "after-gc-after-rollback")
+			w.stats.Inc("check.resolvable-after-gc-after-rollback")
+		}
 	}
 }
 
